@@ -235,6 +235,8 @@ def run(chk, facts):
         ("generate::convert::without_leading_zeros", "strip_prefix"): (1, "sign of a digit string"),
         ("generate::convert::without_leading_zeros", "trim_start_matches"): (1, "leading zeros of a digit string"),
     }
+    from .common import syn_owner, normalise_review
+    REVIEWED_TEXT = normalise_review(syn, REVIEWED_TEXT)
     got_t = {}
     for fn in syn.fns:
         if not fn.get("body") or fn.get("derived") or "test" in fn["mod"] or not (fn["mod"].startswith("check") or fn["mod"].startswith("generate")):
@@ -247,7 +249,7 @@ def run(chk, facts):
                 a = strip(n["args"][0]) if n["args"] else {}
                 if not (a.get("k") == "lit" and a.get("t") in ("str", "char")):
                     continue
-            got_t[(fn["qual"], n["m"])] = got_t.get((fn["qual"], n["m"]), 0) + 1
+            got_t[(syn_owner(syn, fn), n["m"])] = got_t.get((syn_owner(syn, fn), n["m"]), 0) + 1
     for k_, cnt in sorted(got_t.items()):
         rev = REVIEWED_TEXT.get(k_)
         ok = rev is not None and cnt <= rev[0]
